@@ -48,6 +48,11 @@ CHECKS = {
         "(one-leaf mutations must not decode equal) and encode determinism/fixpoint. Boundary classes (int widths, string lengths, batch sizes at every "
         "position, sharing, cycles, host objects) are forced by the generator and counted in the evidence.",
    note="Trusts the harness' Iso relation and starlark.Equal; sizes <= 3002 elements, strings <= 65537 bytes; cycles through a host object's argument tuple are outside the generator (C08 covers recursion)."),
+ "C08": dict(engine="projsim", level="exploration", section="5 C08", technique="grammar-based property testing (rapid) in child processes: terminates-without-crash oracle, determinism across processes, metamorphic change detection",
+   text="BUILD files generated from a grammar of value and function kinds (recursion, mutual recursion, closures, defaults, nested defs, big and cyclic data, "
+        "predeclared values) are built in fresh child processes with a 64 MB stack cap: the first build must exit normally without an environment error, a "
+        "second process must evaluate nothing, and a third must re-evaluate the target exactly when a referenced item was mutated.",
+   note="Programs are bounded by the grammar (<= ~60 lines); the os/sh/json modules of the CLI are not injected in the child processes."),
  "C09": dict(engine="cosched", level="exploration", section="5 C09", technique="schedule exploration (rapid) over configurations: limits 1,2,3,4,16 via CPU affinity, invariant on a harness counter of executing targets",
    text="Shards run under taskset with 1,2,3,4 and 16 CPUs (the runner's limit is runtime.NumCPU); graphs are biased to fans wider than the limit. The harness "
         "counter of executing targets must never exceed the limit; leaked or held slots show as a confirmed deadlock, extra releases as counter > limit.",
